@@ -10,6 +10,8 @@ CONSTANTS
   CombinerClearsQueueOnFailedFlush = TRUE
   Hash <- HashId
   ReaderReportsHunks = TRUE
+  BkRechecksLock = TRUE
+  AllowConcurrent = FALSE
   GcStopsOnUnreadableHunk = TRUE
 INVARIANTS Inv_ValidateQuietOnHealthy Inv_ValidateAdequate
 CHECK_DEADLOCK FALSE
